@@ -4,6 +4,8 @@ from pyvc.values import INT, REAL, TD, STR, NONE, OptS, TupS, SeqS, UnionS, MapS
 from .c_sync import _cls, BIG
 
 C = "chartparse.chart:"
+# properties stated about every line of a section of the FILE (see the partition contract below)
+FILE_BODY = ["C02", "C07", "C08", "C09", "C10", "C14"]
 
 
 def register(reg, S):
@@ -117,7 +119,13 @@ def register(reg, S):
             ("body-start-nonneg", "curr_first_line_index is None or curr_first_line_index >= 0"),
         ] + framed("d", "g_s"))},
         locals={"d": SECTIONS, "curr_header_tag": OptS(STR), "curr_first_line_index": OptS(INT), "curr_last_line_index": OptS(INT)},
-        props=["C06", "C13"]))
+        # File-level glue: the properties about "every line of a section" (C02, C07-C10, C14) are stated
+        # over the file, so they also need each section parser to receive exactly its body (seeded
+        # C14e: an index shift in this function lost the last body line of a section and no check
+        # but C06's looked here).  The key set / key order clauses stay C06's and C13's alone.
+        props=["C06", "C13"] + FILE_BODY,
+        clause_props={"one-entry-per-section-in-file-order": ["C06", "C13"], "no-other-key": ["C06", "C13"],
+                      "each-section-gets-exactly-its-body": ["C06", "C13"] + FILE_BODY}))
     # the same function on arbitrary lines: only the documented error can escape (C18)
     reg.add(Contract(
         C + "Chart._partition_lines_by_data_section", inst="safety", mode="safety",
